@@ -303,8 +303,21 @@ fn any_f32_bits() -> impl Strategy<Value = f32> {
         1 => (-200.0f32..200.0),
     ]
 }
+/// bases a caller writes as literals (and an implementation may special-case): small integers, powers of ten and
+/// of two, e, 1/e
+pub fn round_bases() -> Vec<f32> {
+    let mut v: Vec<f32> = (2..=20).map(|i| i as f32).collect();
+    v.extend((-6..=6).filter(|k| *k != 0).map(|k| 10f32.powi(k)));
+    v.extend((-10..=10).filter(|k| *k != 0).map(|k| 2f32.powi(k)));
+    v.extend([std::f32::consts::E, 1.0 / std::f32::consts::E, std::f32::consts::PI, std::f32::consts::SQRT_2, 1.5, 2.5, 0.75]);
+    v.sort_by(|a, b| a.partial_cmp(b).unwrap());
+    v.dedup();
+    v
+}
+
 fn normal_pos() -> impl Strategy<Value = f32> {
     prop_oneof![
+        1 => (0usize..64).prop_map(|i| { let b = round_bases(); b[i % b.len()] }),
         2 => (0x0080_0000u32..0x7F80_0000).prop_map(f32::from_bits),
         2 => (1u32..255, -4i32..=4).prop_map(|(e, d)| f32::from_bits((((e << 23) as i64) + d as i64).clamp(0x0080_0000, 0x7F7F_FFFF) as u32)),
         2 => (0.0f32..1.0).prop_map(|x| x.max(f32::MIN_POSITIVE)),
@@ -416,6 +429,38 @@ fn sweeps(ctx: &Ctx, st: &mut Stats) -> Vec<Violation> {
     if stride == 1 {
         st.exhaustive_parts.push("powf: every positive normal x for each of the 12 exponents the library uses".into());
     }
+    // ---- powf with round bases (literals a caller writes: 2, 10, e, 0.5, ...) over a dense grid of exponents
+    {
+        let bases = round_bases();
+        let steps: i64 = if ctx.light { 8 } else { ctx.pick(64, 1024) as i64 };
+        out.extend(par_sweep(ctx, st, bases.len() as u64, |lo, hi, st| {
+            for bi in lo..hi {
+                let x = bases[bi as usize];
+                let mut worst = 0.0f64;
+                let mut n = 0u64;
+                for k in (-80 * steps)..=(80 * steps) {
+                    let y = k as f32 / steps as f32;
+                    match check_pow_one(x, y) {
+                        Ok(Some(r)) => {
+                            worst = worst.max(r);
+                            n += 1;
+                        }
+                        Ok(None) => {}
+                        Err(m) => return Some(Violation { signature: "C18:powf".into(), message: m, case: case_json(&Case::Pow(vec![(x, y)])) }),
+                    }
+                }
+                st.max(if fast() { "powf_max_err_over_bound" } else { "powf_max_ulp" }, worst);
+                st.comparisons += n;
+                st.evaluations += 1;
+                st.nontrivial_by_construction += 1;
+                st.class("powf_round_base_sweeps", 1);
+            }
+            None
+        }));
+        if !out.is_empty() {
+            return out;
+        }
+    }
     // ---- expf over all f32
     let stride: u64 = if ctx.light { 389 } else { ctx.pick(47, 1) };
     let off = if stride > 1 { ctx.seed % stride } else { 0 };
@@ -480,4 +525,4 @@ pub fn replay(v: &Value) -> Result<(), String> {
     check(&case_from_json(v).ok_or("bad case")?, &mut Stats::new()).map_err(|v| v.message)
 }
 
-pub const RULE: &str = "cases = batches for one of: cbrtf (normal f32, both signs), powf ((x,y): x positive normal uniform in bit pattern / at exponent boundaries +-4 ulp / in (0,1) / near 1 (|x-1| log-uniform 1e-7..1e-1); y in [-80,80], every whole and half number of that range, the 12 exponents the library uses, small y), expf ([-85,85], [89,1e38], [-1e38,-88], arbitrary bits), totality (all 24x24 pairs of special values, random bit patterns for both arguments of cbrtf/powf/expf) generated by proptest, plus strided (quick) or complete (thorough) enumerations: cbrtf over all normal magnitudes, powf over all positive normal x for each library exponent, expf over all 2^32 patterns; interleaved repeated calls must reproduce the first result bitwise (purity); oracle = f64 libm with the statement's bounds (builds without fastmath: 2 ulp of libm); a panic (incl. the verif hook before to_int_unchecked) is a violation; non-trivial = batch with at least one compared value; distinct = by hash of argument bits";
+pub const RULE: &str = "cases = batches for one of: cbrtf (normal f32, both signs), powf ((x,y): x positive normal uniform in bit pattern / at exponent boundaries +-4 ulp / in (0,1) / near 1 (|x-1| log-uniform 1e-7..1e-1) / round constants (2..20, powers of ten and two, e, 1/e, pi); y in [-80,80], every whole and half number of that range, the 12 exponents the library uses, small y), expf ([-85,85], [89,1e38], [-1e38,-88], arbitrary bits), totality (all 24x24 pairs of special values, random bit patterns for both arguments of cbrtf/powf/expf) generated by proptest, plus strided (quick) or complete (thorough) enumerations: cbrtf over all normal magnitudes, powf over all positive normal x for each library exponent and over a dense exponent grid (step 1/64; thorough 1/1024) for each of ~60 round bases, expf over all 2^32 patterns; interleaved repeated calls must reproduce the first result bitwise (purity); oracle = f64 libm with the statement's bounds (builds without fastmath: 2 ulp of libm); a panic (incl. the verif hook before to_int_unchecked) is a violation; non-trivial = batch with at least one compared value; distinct = by hash of argument bits";
